@@ -24,6 +24,7 @@ type Ob struct {
 func (o *Ob) Key() string { return o.Rule + "/" + o.Construct }
 
 type Check struct {
+	fnNames    map[string]bool
 	P          *Program
 	Prop       string
 	Tier       string
